@@ -440,6 +440,37 @@ def run(rep):
     else:
         rep.check(ok1, "R06.e", cfile, "c_delineate_flowpathlengths_in_catchment", "walk step: length grows by 1 when the two cells share a row or a column, by sqrt(2) otherwise (every grid width)", d1, line=walk.get("_line"))
         rep.check(ok2, "R06.e", cfile, "c_delineate_flowpathlengths_in_catchment", "last step into the outlet: same lengths as the walk step", d2, line=walk.get("_line"))
+    # the last step is never refused to a path the walk completed: a path through an area of nval cells has at most nval - 1
+    # steps, so the walk leaves with at most nval - 2 of them counted when it stops at the outlet
+    def last_step_taken(stmts, counter):
+        ce = CEval(lambda c: False if ("ierr" in show(c) or "c_downstream" in show(c)) else None)
+        ce.summarise_loops = True
+        try:
+            ce.run(stmts, {"length": ('sym', 'L0')})
+        except Undecided as ex:
+            return None, str(ex)
+        alts = []
+        for env, conds, how in ce.finals:
+            if how == "return" or "length" not in env:
+                continue
+            cnl = Canon()
+            r_ = cnl.ratio(env["length"])
+            alts.append((conds, 'L0' in r_.symbols() and not (r_ - Ratio.sym('L0')).is_zero()))
+        bad, n = [], 0
+        for nv in range(2, 8):
+            for k in range(0, nv - 1):
+                envv = {"nval": nv, counter: k, "ncols": 3, "nrows": 3, "idxcell_up[0]": 3, "idxcell_down[0]": 4}
+                live = []
+                for conds, incs in alts:
+                    vals = [(cq.int_eval(cnd, envv), t) for cnd, t in conds]
+                    if any(v is None for v, _t in vals):
+                        return None, "a test of the last step is outside the integer vocabulary"
+                    if all(bool(v) == t for v, t in vals):
+                        live.append(incs)
+                n += 1
+                if not live or not all(live):
+                    bad.append(f"area of {nv} cells, {k} steps counted by the walk: the step into the outlet is not added")
+        return (not bad), (bad[0] + (f" ... {len(bad)} cases" if len(bad) > 1 else "")) if bad else f"{n} (area size, steps walked) cases"
     # cap of the walk and its stops
     capv = None
     for c_ in cq._conj(wparts[1]):
@@ -450,6 +481,13 @@ def run(rep):
                 capv = [x for x in syms if x != "nval"]
     okw = bool(capv) and len(capv) == 1 and cq.same_cond(wparts[1] if len(cq._conj(wparts[1])) == 1 else cq._conj(wparts[1])[0], f"{capv[0]} < nval", True) and \
         len(cq.steps_of(walk, capv[0])) >= 1
+    if capv and len(capv) == 1:
+        ok3, d3 = last_step_taken(post, capv[0])
+        if ok3 is None:
+            rep.undecided("R06.e", cfile, "c_delineate_flowpathlengths_in_catchment", "last step counted for every completed walk", d3, line=walk.get("_line"))
+        else:
+            rep.check(ok3, "R06.e", cfile, "c_delineate_flowpathlengths_in_catchment",
+                      "the step into the outlet is added for every walk that reached it (up to nval - 2 steps counted before)", d3, line=walk.get("_line"))
     rep.check(okw, "R06.d", cfile, "c_delineate_flowpathlengths_in_catchment", "downstream walk capped by the number of area cells (counter stepped in the walk)", text(wparts[1]), line=fp["line"])
     wce = cq.evaluate(body_stmts(wparts[3]))
     brk = [r for r in wce.returns if r[0] == "BreakStmt"]
